@@ -454,9 +454,12 @@ package authenticode
 //@   ensures @a_digest_only_after_every_member_was_consumed ret1 == nil ==> !pending
 //@   loop 0 invariant !pending
 //@
+//@ extern MsiToTar(cdf, w)
+//@
 //@ func MsiToTar
 //@   property C18 C09 C11
 //@   nopanic
+//@   standalone
 //@   requires comdoc.cdfOK(cdf) && w != nil
 //@   ghost stage int = 0
 //@   before call prehashMsiDir(c, root, d): assert @metadata_of_the_whole_document_from_its_root c == cdf && root != nil && stage == 0
@@ -472,7 +475,8 @@ package authenticode
 //@ func PrehashMSI
 //@   property C18 C11
 //@   nopanic
-//@   requires comdoc.cdfOK(cdf) && 1 <= hash && hash <= 19
+//@   requires comdoc.cdfOK(cdf)
+//@   modifies any bytes.Buffer, any bytes.Reader
 //@   ghost ok bool = false
 //@   before call prehashMsiDir(c, root, d): assert @metadata_of_the_whole_document_from_its_root c == cdf && root != nil
 //@   on call prehashMsiDir(_, _, _) ret (e): ok = (e == nil)
